@@ -487,6 +487,9 @@ Definition set_var_with_index (r : runner) (prev : variable) (name : str) (index
       let prev := with_set true prev in
       match v_kind prev with
       | KAssoc =>
+          (* Go: the index must be a syntax.Word (type assertion, else return): a negative
+             literal parses as a unary arithmetic expression, not as a Word *)
+          if Z.ltb kz 0 then ret tt else
           m <- map_clone (v_map prev) ;;
           m' <- (match m with Some l => ret l | None => o_alloc (CMap []) end) ;;
           kv <- map_read (Some m') ;;
